@@ -7,6 +7,7 @@ Deductive part (every state of the tables, every reason):
   * connect() and its inner function try_next_ep: the first endpoint tried is the first one listed; each retry takes exactly
     the LAST element of the (reversed) remaining list - i.e. the next one in listed order - removes it, and chains itself as
     the errback of that attempt (and only as errback); with no endpoint left the connect Deferred is failed once
+  * DBusClientConnection.disconnect: asks the transport to close and changes nothing else (frame: busName, tables, callbacks)
   * DBusClientConnection.connectionLost:
       established (busName set): the connection's disconnect callbacks are invoked once each in order; for an arbitrary
       serial s0, if it was pending its Deferred is failed (exactly once: it was unfired, see PC) and its timer cancelled;
@@ -37,6 +38,7 @@ def errback(self, fail): pass
 def cancel(self): pass
 def _failed(self, err): pass
 def h_connectionLost(self, reason): pass
+def loseConnection(self): pass
 def addErrback(self, eb): pass
 
 
@@ -95,7 +97,7 @@ def build_world():
     w.add_class(ClassSpec(H, objects.DBusObjectHandler, {'_weakProxies': ListT(Ref(P)), 'g_lost': INT}))
     w.add_class(ClassSpec(C, client.DBusClientConnection, {
         'busName': Opt(STR), '_dcCallbacks': ListT(Ref(CB)), '_pendingCalls': Opt(DictT(INT, TupleT(Ref(D), Opt(Ref(T))))),
-        'objHandler': Ref(H), 'factory': Opt(Ref(F))}))
+        'objHandler': Ref(H), 'factory': Opt(Ref(F)), 'transport': Ref('Transport')}))
 
     log_mod = lambda cx: [(GHOST, 'Ghost.cb_log')]
     contract(w, 'iface.Callback.__call__', {'self': Ref(CB), 'who': OPAQUE, 'reason': OPAQUE}, fn=__call__, modifies=log_mod,
@@ -259,6 +261,16 @@ def build_world():
              locals_types={},
              loops={1: LoopSpec(invariant=pending_inv(1), ghost_index='_k1'), 2: LoopSpec(invariant=cb_inv, ghost_index='_k2'),
                     3: LoopSpec(invariant=pending_inv(3), ghost_index='_k3')})
+    # ---- disconnect(): closes the transport and nothing else (in particular the connection still counts as established,
+    # so the loss that follows runs the disconnect callbacks)
+    w.add_class(ClassSpec('Transport', None, {'g_closed': BOOL}, methods={'loseConnection': loseConnection}))
+    contract(w, 'iface.Transport.loseConnection', {'self': Ref('Transport')}, fn=loseConnection,
+             modifies=lambda cx: [(cx.args['self'], 'Transport.g_closed')],
+             ensures=lambda cx: [('closing', cx.new(cx.args['self']).g_closed)], assumed=True)
+    contract(w, 'txdbus.client.DBusClientConnection.disconnect', {'self': Ref(C)},
+             modifies=lambda cx: [('*', 'Transport.g_closed')],
+             ensures=lambda cx: [('the transport is asked to close', cx.new(VRef(cx.old(cx.args['self']).transport, 'Transport')).g_closed)])
+
     # ---- connect(): the endpoint walk
     w.add_class(ClassSpec('Endpoint', None, {}, methods={'connect': ep_connect}))
     w.add_class(ClassSpec('Failure', None, {}, methods={'getErrorMessage': getErrorMessage}))
@@ -333,7 +345,7 @@ def others_same(cx, d):
 
 def build(tier='quick'):
     w = build_world()
-    targets = ['nested:connect.try_next_ep', 'txdbus.client.connect', 'txdbus.client.DBusClientFactory.getConnection', 'txdbus.objects.RemoteDBusObject.notifyOnDisconnect', 'txdbus.objects.RemoteDBusObject.connectionLost',
+    targets = ['txdbus.client.DBusClientConnection.disconnect', 'nested:connect.try_next_ep', 'txdbus.client.connect', 'txdbus.client.DBusClientFactory.getConnection', 'txdbus.objects.RemoteDBusObject.notifyOnDisconnect', 'txdbus.objects.RemoteDBusObject.connectionLost',
                'txdbus.objects.DBusObjectHandler.connectionLost', 'txdbus.client.DBusClientConnection.connectionLost']
     sp = Spec('C09', w, lambda world: Models09(world), targets, replay=replay,
               bounded=[{'name': 'connection-history', 'run': run_bounded}],
